@@ -15,6 +15,7 @@ exception Undef
 let get = function Some v -> v | None -> raise Undef
 
 let run (type a) (k : a c01_ops) (parse : string -> a) (show : a -> string)
+    (nabs : (a -> z) option) (nabsreal : a -> z) (nabs2 : a -> z) (cmp4 : a -> a -> bool list)
     (op : string) (rep : string) (rep2 : string) (r : int) (c : int) (p : int) (toks : string list) : string * string =
   let rest = ref toks in
   let take1 () = match !rest with t :: tl -> rest := tl; parse t | [] -> failwith "short case" in
@@ -202,6 +203,162 @@ let run (type a) (k : a c01_ops) (parse : string -> a) (show : a -> string)
     let a = takem r c in let m = takem c p in
     let res = if r = 1 && c = 1 then c01_fm11_rightmultiplyany k np a m else c01_rightmultiplyany k np a m in
     (obs (sm res) (sm a) (sm m), obs (sm (c01s_mat_mul k np a m)) (sm a) (sm m))
+  (* ---------------------------------------------------------------- extra streams (harness/C01/impl_extra.hh) *)
+  | "xfill" ->
+    let s = take1 () in
+    (match rep with
+     | "FV" | "DV" | "DG" -> let x = take r in
+       let m = sv (c01_fill x s) and sp = sv (List.map (fun _ -> s) x) in (obs m m (show s), obs sp sp (show s))
+     | "FM" | "DM" -> let a = takem r c in
+       let m = sm (c01_mfill a s) and sp = sm (List.map (List.map (fun _ -> s)) a) in (obs m m (show s), obs sp sp (show s))
+     | _ -> let _ = take 2 in (obs (show s) (show s) (show s), obs (show s) (show s) (show s)))
+  | "xcopy" ->
+    let _ = take1 () in let x = take r in
+    let b = if rep = "FV" && rep2 = "FV" then show (List.hd x) else "-" in
+    (obs (sv (c01_vassign k (c01_vzero k nr) x)) (sv x) b, obs (sv x) (sv x) b)
+  | "xmcopy" ->
+    let _ = take1 () in
+    if rep = "DG" then begin
+      let d = take r in (obs (sv (c01_dg_transposed d)) (sv d) "1", obs (sv d) (sv d) "1")
+    end else begin
+      let a = takem r c in
+      let b = if rep = "DM" then sv (List.hd a) else "-" in
+      (obs (sm (c01_assign_dense k a)) (sm a) b, obs (sm a) (sm a) b)
+    end
+  | "xfield" ->
+    let _ = take1 () in
+    (match rep with
+     | "FV" | "DV" -> let x = take r in (obs (sv (c01_vassign k (c01_vzero k nr) x)) (sv x) "-", obs (sv x) (sv x) "-")
+     | _ -> let a = takem r c in (obs (sm (c01_assign_dense k a)) (sm a) "-", obs (sm a) (sm a) "-"))
+  | "xmixmul" -> let _ = take1 () in let a = takem r c in let b = takem c p in
+    (obs (sm (if r = 1 && c = 1 then c01_fm11_mul_row k np a b else c01_fm_mul k nr nc np a b)) (sm a) (sm b), obs (sm (c01s_mat_mul k np a b)) (sm a) (sm b))
+  | "xmixadd" -> let _ = take1 () in let a = takem r c in let b = takem r c in
+    (obs (sm (if r = 1 && c = 1 then c01_fm11_binop k k.c01_add a b else c01_fm_plus k nr nc a b)) (sm a) (sm b), obs (sm (c01s_madd k a b)) (sm a) (sm b))
+  | "xmixsub" -> let _ = take1 () in let a = takem r c in let b = takem r c in
+    (obs (sm (if r = 1 && c = 1 then c01_fm11_binop k k.c01_sub a b else c01_fm_minus k nr nc a b)) (sm a) (sm b), obs (sm (c01s_msub k a b)) (sm a) (sm b))
+  | "xmixmscale" -> let s = take1 () in let a = takem r c in
+    (obs (sm (if r = 1 && c = 1 then c01_fm11_scalar_l k k.c01_mul s a else c01_fm_smul k nr nc s a)) (sm a) "-", obs (sm (c01s_mscale k s a)) (sm a) "-")
+  | "xmixumv" -> let _ = take1 () in let a = takem r c in let x = take c in let y = take r in
+    (obs (sv (c01_umv k a x y)) (sm a) (sv x), obs (sv (c01s_plus k C01_N nc a x y)) (sm a) (sv x))
+  | "xmixdot" -> let _ = take1 () in let x = take r in let y = take r in
+    (obs (show (c01_vdot k x y)) (sv x) (sv y), obs (show (c01s_hdot k x y)) (sv x) (sv y))
+  | "xmixdotT" -> let _ = take1 () in let x = take r in let y = take r in
+    (obs (show (c01_vdotT k x y)) (sv x) (sv y), obs (show (c01s_dot k x y)) (sv x) (sv y))
+  | "xmixscale" -> let s = take1 () in let x = take r in let y = take r in
+    (obs (sv (c01_fv_smul k s x)) (sv x) (sv y), obs (sv (c01s_vscale k s x)) (sv x) (sv y))
+  | "xmixvadd" -> let _ = take1 () in let x = take r in let y = take r in
+    let m = sv (c01_vadd k y x) and sp = sv (c01s_vadd k y x) in (obs m (sv x) m, obs sp (sv x) sp)
+  | "xmixaxpy" -> let s = take1 () in let x = take r in let y = take r in
+    let m = sv (c01_vaxpy k y s x) and sp = sv (c01s_vadd k y (c01s_vscale k s x)) in (obs m (sv x) m, obs sp (sv x) sp)
+  | "xmixdg" -> let _ = take1 () in let a = take r in let b = take r in
+    (obs (sv (c01_dg_mul k a b)) "-" (sv b), obs (sv (c01s_map2 k.c01_mul a b)) "-" (sv b))
+  | "xfm11adds" | "xfm11sadd" | "xfm11subs" | "xfm11ssub" | "xfm11pluseq" | "xfm11minuseq" | "xfm11timeseq" | "xfm11diveq"
+  | "xfm11mpluseq" | "xfm11conv" ->
+    let s = take1 () in let a = take1 () in let b = take1 () in
+    let m11 v = [[v]] in
+    let fresh res sp = (obs (sm res) (show a) (show s), obs (show sp) (show a) (show s)) in
+    let inpl res sp bb = (obs (sm res) (sm res) bb, obs (show sp) (show sp) bb) in
+    (match op with
+     | "xfm11adds" -> fresh (c01_fm11_scalar_r k k.c01_add (m11 a) s) (k.c01_add a s)
+     | "xfm11sadd" -> fresh (c01_fm11_scalar_l k k.c01_add s (m11 a)) (k.c01_add s a)
+     | "xfm11subs" -> fresh (c01_fm11_scalar_r k k.c01_sub (m11 a) s) (k.c01_sub a s)
+     | "xfm11ssub" -> fresh (c01_fm11_scalar_l k k.c01_sub s (m11 a)) (k.c01_sub s a)
+     | "xfm11pluseq" -> inpl (c01_fm11_scalar_r k k.c01_add (m11 a) s) (k.c01_add a s) (show s)
+     | "xfm11minuseq" -> inpl (c01_fm11_scalar_r k k.c01_sub (m11 a) s) (k.c01_sub a s) (show s)
+     | "xfm11timeseq" -> inpl (c01_fm11_scalar_r k k.c01_mul (m11 a) s) (k.c01_mul a s) (show s)
+     | "xfm11diveq" -> let q = get (k.c01_div a s) in inpl (m11 q) q (show s)
+     | "xfm11mpluseq" -> inpl (c01_madd k (m11 a) (m11 b)) (k.c01_add a b) (show b)
+     | _ -> (obs (show a) (show (k.c01_mul a s)) (show a), obs (show a) (show (k.c01_mul a s)) (show a)))
+  | "xfv1adds" | "xfv1sadd" | "xfv1subs" | "xfv1ssub" | "xfv1muls" | "xfv1smul" | "xfv1divs" | "xfv1sdiv" | "xfv1conv" | "xfv1eq" | "xfv1cmp" ->
+    let s = take1 () in let a = take1 () in let b = take1 () in
+    let fresh v = (obs (show v) (show a) (show s), obs (show v) (show a) (show s)) in
+    let bits l = String.concat "" (List.map b01 l) in
+    (match op with
+     | "xfv1adds" -> fresh (k.c01_add a s) | "xfv1sadd" -> fresh (k.c01_add s a)
+     | "xfv1subs" -> fresh (k.c01_sub a s) | "xfv1ssub" -> fresh (k.c01_sub s a)
+     | "xfv1muls" -> fresh (k.c01_mul a s) | "xfv1smul" -> fresh (k.c01_mul s a)
+     | "xfv1divs" -> fresh (get (k.c01_div a s)) | "xfv1sdiv" -> fresh (get (k.c01_div s a))
+     | "xfv1conv" -> (obs (show s) (show a) (show s), obs (show s) (show a) (show s))
+     | "xfv1eq" ->
+       let e x y = k.c01_eqb x y in
+       let m = bits [c01_veq k [a] [s]; not (c01_veq k [a] [s]); c01_veq k [s] [a]; not (c01_veq k [s] [a]); c01_veq k [a] [b]; not (c01_veq k [a] [b])] in
+       let sp = bits [e a s; not (e a s); e s a; not (e s a); e a b; not (e a b)] in
+       (obs m (show a) (show b), obs sp (show a) (show b))
+     | _ -> let m = bits (cmp4 a b @ cmp4 a s @ cmp4 s a) in (obs m (show a) (show b), obs m (show a) (show b)))
+  | "xdotfree" ->
+    let _ = take1 () in let x = take r in let y = take r in
+    let e = show (k.c01_mul (k.c01_conj (List.hd x)) (List.hd y)) ^ "," ^ show (k.c01_mul (List.hd x) (List.hd y)) in
+    (obs (show (c01_vdot k x y)) (show (c01_vdotT k x y)) e, obs (show (c01s_hdot k x y)) (show (c01s_dot k x y)) e)
+  | "xhelpmv" | "xhelpmvd" -> let _ = take1 () in let a = takem r c in let x = take c in let y = take r in
+    (obs (sv (c01_mv k a x y)) (sm a) (sv x), obs (sv (c01s_assign k C01_N nc a x)) (sm a) (sv x))
+  | "xhelpmtv" -> let _ = take1 () in let a = takem r c in let x = take r in let y = take c in
+    (obs (sv (c01_mtv k a x y)) (sm a) (sv x), obs (sv (c01s_assign k C01_T nc a x)) (sm a) (sv x))
+  | "xhelpmtm" -> let _ = take1 () in let a = takem r c in let z = takem c c in
+    (obs (sm (c01_mult_transposed k nr nc a z)) (sm a) "-", obs (sm (c01s_mat_mul k nc (c01s_transpose k nc a) a)) (sm a) "-")
+  | "xhelpmult" -> let _ = take1 () in let a = takem r c in let b = takem c p in let _ = takem r p in
+    (obs (sm (c01_fm_mul k nr nc np a b)) (sm a) (sm b), obs (sm (c01s_mat_mul k np a b)) (sm a) (sm b))
+  | "xnorm" ->
+    let _ = take1 () in
+    let sz z = string_of_int (int_of_z z) in
+    let sumz l = List.fold_right (fun a b -> Z.add a b) l Z0 and maxz l = List.fold_right (fun a b -> Z.max a b) l Z0 in
+    let opt f = match nabs with Some g -> f g | None -> "-" in
+    (match rep with
+     | "FV" | "DV" -> let x = take r in
+       let m = String.concat "," [opt (fun g -> sz (c01_norm_sum k g x)); sz (c01_norm_sum k nabsreal x); sz (c01_norm_sum k nabs2 x);
+                                  opt (fun g -> sz (c01_norm_max k g x)); sz (c01_norm_max k nabsreal x)] in
+       let sp = String.concat "," [opt (fun g -> sz (sumz (List.map g x))); sz (sumz (List.map nabsreal x)); sz (sumz (List.map nabs2 x));
+                                   opt (fun g -> sz (maxz (List.map g x))); sz (maxz (List.map nabsreal x))] in
+       (obs m (sv x) "-", obs sp (sv x) "-")
+     | "DG" -> let d = take r in
+       let m = String.concat "," [sz (c01_norm_sum k nabs2 d); opt (fun g -> sz (c01_norm_max k g d)); sz (c01_norm_max k nabsreal d)] in
+       let dd = c01s_diag k d in
+       let sp = String.concat "," [sz (sumz (List.map (fun row -> sumz (List.map nabs2 row)) dd)); opt (fun g -> sz (maxz (List.map (fun row -> sumz (List.map g row)) dd)));
+                                   sz (maxz (List.map (fun row -> sumz (List.map nabsreal row)) dd))] in
+       (obs m (sv d) "-", obs sp (sv d) "-")
+     | _ -> let a = takem r c in
+       let m = String.concat "," [sz (c01_mnorm_sum k nabs2 a); opt (fun g -> sz (c01_mnorm_inf k g a)); sz (c01_mnorm_inf k nabsreal a)] in
+       let sp = String.concat "," [sz (sumz (List.map (fun row -> sumz (List.map nabs2 row)) a)); opt (fun g -> sz (maxz (List.map (fun row -> sumz (List.map g row)) a)));
+                                   sz (maxz (List.map (fun row -> sumz (List.map nabsreal row)) a))] in
+       (obs m (sm a) "-", obs sp (sm a) "-"))
+  | "xvaccess" ->
+    let _ = take1 () in let x = take r in let y = take r in
+    let last l = List.nth l (List.length l - 1) in
+    let n = string_of_int r in
+    let info = (if r > 0 then [show (List.hd x); show (last x); show (last x); string_of_int (r - 1)] else []) @ [n; n; n; b01 (r = 0); "1"; n] in
+    let o = obs (if r = 0 then "-" else sv (c01_vassign k (c01_vzero k nr) x)) (String.concat "," info) (sv (c01_vassign k x y)) in
+    let osp = obs (if r = 0 then "-" else sv x) (String.concat "," info) (sv y) in
+    (o, osp)
+  | "xmaccess" ->
+    let _ = take1 () in
+    if rep = "DG" && r >= 2 then begin
+      let d = take r in let e = take r in
+      let n = string_of_int r in
+      let info = String.concat "," [n; n; n; n; n; n; show (List.nth d (r - 1)); string_of_int (r - 1); sv d] in
+      (obs (sm (c01_dg_to_dense k d)) info (sv (c01_vassign k d e)), obs (sm (c01s_diag k d)) info (sv e))
+    end else begin
+      let (rr, cc) = if rep = "DG" then (1, 1) else (r, c) in
+      let a = takem rr cc in let b = takem rr cc in
+      let info = String.concat "," (List.map string_of_int [rr; cc; rr; cc; rr; rr * cc]) in
+      (obs (sm (c01_assign_dense k a)) info (sm (c01_assign_dense k b)), obs (sm a) info (sm b))
+    end
+  | "xdgadds" | "xdgsubs" ->
+    let s = take1 () in let d = take r in
+    let (m, sp) = if op = "xdgadds" then (c01_vadds k d s, List.map (fun a -> k.c01_add a s) d) else (c01_vsubs k d s, List.map (fun a -> k.c01_sub a s) d) in
+    (obs (sv m) (sv m) (show s), obs (sv sp) (sv sp) (show s))
+  | "xview" ->
+    let alpha = take1 () in let s = take1 () in let xs = take1 () in let ys = take1 () in
+    let a = show s ^ "," ^ show xs in
+    (obs (sv (c01_usmhv k alpha [[s]] [xs] [ys])) a "1,111", obs (sv (c01s_plus_scaled k alpha C01_H (nat_of_int 1) [[s]] [xs] [ys])) a "1,111")
+  | "xtw" ->
+    let _ = take1 () in let a = takem r c in let x = take r in let y = take c in
+    let two = k.c01_add k.c01_I k.c01_I in
+    let a2 = c01_mscale k a two in
+    (obs (sv (c01_tw_mv (c01_mtv k a) x y)) (sv (c01_tw_mv (c01_mtv k a2) x y)) (sm a),
+     obs (sv (c01s_assign k C01_T nc a x)) (sv (c01s_assign k C01_T nc (c01s_mscale k two a) x)) (sm a))
+  | "xresize" ->
+    let s = take1 () in let x = take r in
+    let rs fillv = List.init c (fun i -> if i < r then List.nth x i else fillv) in
+    let o = obs (sv (rs s)) (sv (rs k.c01_O)) (sv (x @ [s])) in (o, o)
   | _ -> ("UNKNOWN-OP", "UNKNOWN-OP")
 
 let parse_z s = z_of_int (int_of_string s)
@@ -221,13 +378,13 @@ let () =
        let r = int_of_string r and c = int_of_string c and p = int_of_string p in
        let (m, s) =
          (try
-           if f = "Z" || f = "D" then run c01_Z_ops parse_z show_z op rep rep2 r c p toks
-           else if f = "C" then run c01_G_ops parse_g show_g op rep rep2 r c p toks
+           if f = "Z" || f = "D" then run c01_Z_ops parse_z show_z (Some c01_Z_abs) c01_Z_abs c01_Z_abs2 c01_Z_cmp4 op rep rep2 r c p toks
+           else if f = "C" then run c01_G_ops parse_g show_g None c01_G_absreal c01_G_abs2 (fun _ _ -> []) op rep rep2 r c p toks
            else if String.length f > 1 && f.[0] = 'F' then
              let pp = int_of_string (String.sub f 1 (String.length f - 1)) in
              let ops = c01_P_ops (z_of_int pp) in
              let parse s = Z.modulo (parse_z s) (z_of_int pp) in
-             run ops parse show_z op rep rep2 r c p toks
+             run ops parse show_z None c01_Z_abs c01_Z_abs2 (fun _ _ -> []) op rep rep2 r c p toks
            else ("UNKNOWN-FIELD", "UNKNOWN-FIELD")
          with Undef -> ("UNDEF", "UNDEF")) in
        print_string m; print_string " | "; print_endline s
